@@ -447,3 +447,43 @@ Example c13_evict_example :
   EvictStoreC13.blocks_any (EvictStoreC13.run false EvictStoreC13Proofs.wit_keep_del (EvictStoreC13.init_store EvictStoreC13Proofs.wit_users)) = false /\
   forallb EvictStoreC13.prompt_label EvictStoreC13Proofs.wit_self = false.
 Proof. vm_compute. repeat split. Qed.
+
+(* ================= the plain-text preview of a push notification (coq/Pure/PushPreviewC13.v) ================= *)
+(* payloadToData (server/push/fcm/payload.go; fcm and tnpg adapters): the plain text of the message content is
+   trimmed to push.MaxPayloadLength = 128 runes; the byte length is tested first, then the rune length, then
+   runes[:128] is taken. A text is ANY list of units (well-formed sequences of any code point / stray bytes). *)
+Require Tinode.Pure.PushPreviewC13 Tinode.Pure.PushPreviewC13Proofs.
+
+(* for EVERY text: the truncation never slices beyond the rune length, the content is the text itself (at most 128 runes) or
+   a prefix of its runes of at most 128 runes followed by the ellipsis, the latter exactly when runes were dropped *)
+Theorem c13_push_preview_no_panic : forall s,
+  (forall b l, PushPreviewC13.trim_c13 true s <> PushPreviewC13.PPanicSlice b l) /\
+  exists p, (length p <= PushPreviewC13.max_payload_c13)%nat /\ p = firstn (length p) (PushPreviewC13.runes_c13 s) /\
+    (PushPreviewC13.trim_c13 true s = PushPreviewC13.POk s /\ p = PushPreviewC13.runes_c13 s \/
+     PushPreviewC13.trim_c13 true s = PushPreviewC13.POk (map PushPreviewC13.UValid p ++ [PushPreviewC13.UValid PushPreviewC13.ellipsis_c13]) /\ (length p < length (PushPreviewC13.runes_c13 s))%nat).
+Proof. intros s. split; [exact (PushPreviewC13Proofs.trim_no_panic s)|exact (PushPreviewC13Proofs.trim_prefix s)]. Qed.
+Print Assumptions c13_push_preview_no_panic.
+
+(* exact result *)
+Theorem c13_push_preview_exact : forall s,
+  ((length (PushPreviewC13.runes_c13 s) <= 128)%nat /\ PushPreviewC13.trim_c13 true s = PushPreviewC13.POk s) \/
+  ((128 < length (PushPreviewC13.runes_c13 s))%nat /\
+   PushPreviewC13.trim_c13 true s = PushPreviewC13.POk (map PushPreviewC13.UValid (firstn 128 (PushPreviewC13.runes_c13 s)) ++ [PushPreviewC13.UValid PushPreviewC13.ellipsis_c13])).
+Proof. exact PushPreviewC13Proofs.trim_spec. Qed.
+Print Assumptions c13_push_preview_exact.
+
+(* the variant that tests only the BYTE length before runes[:128] ("the rune test is redundant") *)
+Definition c13_push_preview_bytes_only_statement : Prop :=
+  forall s b l, PushPreviewC13.trim_c13 false s <> PushPreviewC13.PPanicSlice b l.
+
+(* refuted: 65 Cyrillic letters = 130 bytes, 65 runes: runes[:128] of a 65-rune slice *)
+Theorem c13_push_preview_bytes_only_refuted : ~ c13_push_preview_bytes_only_statement.
+Proof. intros H. exact (H PushPreviewC13.witness_cyrillic_c13 128%nat 65%nat PushPreviewC13Proofs.variant_panics). Qed.
+Print Assumptions c13_push_preview_bytes_only_refuted.
+
+(* ... and multi-byte text of more than 128 bytes and fewer than 128 runes is exactly the trigger *)
+Theorem c13_push_preview_bytes_only_partial : forall s,
+  (exists b l, PushPreviewC13.trim_c13 false s = PushPreviewC13.PPanicSlice b l) <->
+  ((128 < PushPreviewC13.byte_len_c13 s)%nat /\ (length (PushPreviewC13.runes_c13 s) < 128)%nat).
+Proof. exact PushPreviewC13Proofs.variant_trigger. Qed.
+Print Assumptions c13_push_preview_bytes_only_partial.
